@@ -14,6 +14,7 @@ func init() {
 				hsd(rootPkg, "VerifC24_sched", P{"cap": 1, "acquirers": q(tier, int64(2), 3)}, q(tier, 3, 4), 3000000, 1800, "served"),
 				hsd(rootPkg, "VerifC05_poolCancel", nil, q(tier, 3, 5), 3000000, 1800, "returned"),
 				hsd(rootPkg, "VerifC05_poolRetry", nil, q(tier, 3, 5), 3000000, 1800, "cancelled", "gotwire"),
+				hsd(rootPkg, "VerifC05_poolTwoWaiters", nil, q(tier, 3, 4), 3000000, 3000, "cancelled", "gotwire"),
 			}
 			if tier == "thorough" {
 				s = append(s, hsd(rootPkg, "VerifC24_sched", P{"cap": 2, "acquirers": 3}, 4, 3000000, 1800, "served"))
